@@ -51,7 +51,7 @@ def command(ctx, it, cmd, dmg):
     if cmd == 'abidiff-suppr-shapes':
         return 'abidiff', ['abidiff', '--no-default-suppression', '--suppressions', dmg, L['shapes_v0'], L['shapes_v2']], None
     if cmd == 'abidiff-suppr-nodbg':
-        return 'abidiff', ['abidiff', '--no-default-suppression', '--suppressions', dmg, L['shapes_v0_nodbg'], L['shapes_v2_nodbg']], None
+        return 'abidiff', ['abidiff', '--no-default-suppression', '--suppressions', dmg, L['shapes_v3_nodbg'], L['shapes_v0_nodbg']], None     # a removed and an added function symbol, an added variable symbol
     if cmd == 'abidiff-kmi':
         return 'abidiff', ['abidiff', '--no-default-suppression', '--kmi-whitelist', dmg, L['alias_v0'], L['alias_v1']], None
     if cmd == 'abidw-suppr':
